@@ -426,25 +426,30 @@ Proof.
   destruct dh; cbn [parse_depth depth_asked bind]; try reflexivity; apply B.
 Qed.
 
-Theorem principal_meets_spec : forall cup homesets path ct bd,
-  principal_spec cup homesets (rid path) ct bd (observe (principal_model cup homesets path ct bd)) = true.
+Theorem principal_meets_spec : forall cup homesets path ct bd dh,
+  principal_spec cup homesets (rid path) ct bd dh (observe (principal_model cup homesets path ct bd dh)) = true.
 Proof.
-  intros cup homesets path ct bd.
-  pose proof (principal_ok cup homesets path ct bd) as PO.
-  unfold principal_spec, principal_model in *.
+  intros cup homesets path ct bd dh.
+  pose proof (principal_ok cup homesets path ct bd dh) as PO.
+  unfold principal_spec, spec_answer, principal_model in *.
   apply andb_true_intro. split.
   { apply observe_strict. intros E. rewrite E in PO. exact PO. }
   pose proof (decode_asked ct bd) as DA.
   destruct (asked_of ct bd) as [pf| |]; [| |reflexivity].
   2:{ unfold serve_principal. rewrite DA. reflexivity. }
   destruct DA as [D NF]. unfold serve_principal in *. rewrite D in *. cbn [bind] in *.
-  destruct (new_propfind_response path pf (principal_props cup homesets)) as [r|c|] eqn:NR; cbn [bind] in *.
-  - cbn [observe ob_status ob_responses N.eqb Pos.eqb andb all2].
-    pose proof (accounting path pf (principal_props cup homesets)) as A. rewrite NR in A. destruct A as [HR _].
-    rewrite Bool.andb_true_r. apply andb_true_intro. split.
-    + rewrite HR. apply list_eqb_string_spec. reflexivity.
-    + eapply accounting_b. exact NR.
-  - pose proof (accounting path pf (principal_props cup homesets)) as A. rewrite NR in A.
-    destruct A as [_ FN]. apply form_of_none in FN. congruence.
-  - contradiction.
+  assert (B : N.eqb (ob_status (observe (do r <- new_propfind_response path pf (principal_props cup homesets); Ok [r]))) 207
+              && all2 (fun e r => list_eqb String.eqb (rid (r_href r)) (fst e) && accounted_b pf (snd e) r)
+                      [(rid path, principal_props cup homesets)]
+                      (ob_responses (observe (do r <- new_propfind_response path pf (principal_props cup homesets); Ok [r])))
+              = true).
+  { pose proof (accounting path pf (principal_props cup homesets)) as A.
+    destruct (new_propfind_response path pf (principal_props cup homesets)) as [r|c|] eqn:NR; cbn [bind].
+    - cbn [observe ob_status ob_responses N.eqb Pos.eqb andb all2 fst snd].
+      destruct A as [HR _]. rewrite Bool.andb_true_r. apply andb_true_intro. split.
+      + rewrite HR. apply list_eqb_string_spec. reflexivity.
+      + eapply accounting_b. exact NR.
+    - destruct A as [_ FN]. apply form_of_none in FN. congruence.
+    - contradiction. }
+  destruct dh; cbn [parse_depth depth_asked bind]; try reflexivity; exact B.
 Qed.
